@@ -53,6 +53,28 @@ class Slotted:
         return "Slotted(%r, %r)" % (self.a, self.b)
 
 
+class Hooked:
+    """A picklable value whose __reduce__ runs a callback while the pickler is in the middle of dumping it: the harness
+    uses it to serialise another value through the same serde at that moment (re-entrantly or from another thread)."""
+    hooks = {}
+
+    def __init__(self, tag, payload):
+        self.tag = tag
+        self.payload = payload
+
+    def __reduce__(self):
+        h = Hooked.hooks.get(self.tag)
+        if h is not None:
+            h()
+        return (Hooked, (self.tag, self.payload))
+
+    def __eq__(self, other):
+        return type(other) is Hooked and other.tag == self.tag and same(other.payload, self.payload)
+
+    def __hash__(self):
+        return hash(self.tag)
+
+
 def same(a, b):
     """equal AND of exactly the same type, recursively"""
     if type(a) is not type(b):
